@@ -85,3 +85,16 @@ package topology
 //@   protocol-only C10
 //@   deterministic C10
 
+// ---- C10: the entropy is a floating-point sum; its terms are added in a fixed order (byte value), never in map order
+//@ func CalculateEntropy
+//@   noframe
+//@   protocol-only C10
+//@   loop 1 ordered [C10.order]
+//@   loop 2 ordered [C10.order]
+
+// ---- C19: the call-profile key of a function literal is built from its signature alone (no name of the literal or of
+// the function it is written in)
+//@ func extractClosureSignature
+//@   noframe
+//@   ensures [C19.namefree] hasType(v.Fn, "*ssa.Function") && dyn(v.Fn, "*ssa.Function") != nil ==> result == "closure:" + purecall("(*go/types.Signature).String", dyn(v.Fn, "*ssa.Function").Signature)
+
